@@ -6,6 +6,7 @@ package main
 //   init2 : single-node model with every input but the first stored as initializer, run twice
 
 import (
+	"encoding/json"
 	"fmt"
 
 	"github.com/advancedclimatesystems/gonnx"
@@ -259,6 +260,33 @@ func execOpCase(c *Case) []ModeResult {
 				o2 := execOpAPITwice(c)
 				out = append(out, ModeResult{"api:same-tensors-twice", Verdict(c, o2), o2.Short()})
 			}
+			if len(c.Same) == 0 {
+				// operands that are equal tensors may be the very same object (Gemm(X, X), Add(v, v), ...)
+				alias := *c
+				alias.Same = make([]int, len(c.Inputs))
+				found := false
+				for i := range c.Inputs {
+					alias.Same[i] = -1
+					if c.Inputs[i].Nil {
+						continue
+					}
+					bi, _ := json.Marshal(c.Inputs[i])
+					for j := 0; j < i; j++ {
+						if c.Inputs[j].Nil {
+							continue
+						}
+						bj, _ := json.Marshal(c.Inputs[j])
+						if string(bi) == string(bj) {
+							alias.Same[i], found = j, true
+							break
+						}
+					}
+				}
+				if found {
+					o4 := execOpAPI(&alias)
+					out = append(out, ModeResult{"api:equal-operands-one-object", Verdict(c, o4), o4.Short()})
+				}
+			}
 			if len(c.Attrs) >= 2 {
 				// the order of a node's attributes carries no meaning
 				rev := *c
@@ -299,7 +327,67 @@ func execHelperCase(c *Case) []ModeResult {
 	if o.Kind == "harness" {
 		return []ModeResult{{"helper", "harness:" + o.Note, ""}}
 	}
-	return []ModeResult{{"helper", Verdict(c, o), o.Short()}}
+	out := []ModeResult{{"helper", Verdict(c, o), o.Short()}}
+	if r := execHelperRefilled(c); r != nil {
+		out = append(out, *r)
+	}
+	return out
+}
+
+// execHelperRefilled: the caller re-uses its two tensor objects as input buffers - broadcast, overwrite the data of both in place
+// (every element + 7), broadcast again. The second result must be built from the new contents. float32 cases only.
+func execHelperRefilled(c *Case) *ModeResult {
+	if c.Allowed.Must != "value" || len(c.Inputs) != 2 || c.Inputs[0].Dt != "f32" || c.Inputs[1].Dt != "f32" {
+		return nil
+	}
+	inputs, err := mkInputs(c)
+	if err != nil {
+		return nil
+	}
+	call := func() Observation {
+		return guard(func() Observation {
+			var a, b tensor.Tensor
+			var err error
+			if c.Op == "MultidirectionalBroadcast" {
+				a, b, err = ops.MultidirectionalBroadcast(inputs[0], inputs[1])
+			} else {
+				a, b, err = ops.UnidirectionalBroadcast(inputs[0], inputs[1])
+			}
+			if err != nil {
+				return observeErr(err)
+			}
+			return valueObs([]tensor.Tensor{a, b})
+		})
+	}
+	if first := call(); first.Kind != "value" {
+		return nil // decided by the plain mode
+	}
+	for _, t := range inputs {
+		switch d := t.Data().(type) {
+		case []float32:
+			for i := range d {
+				d[i] += 7
+			}
+		case float32:
+			return nil // a scalar's value cannot be overwritten through Data()
+		}
+	}
+	shifted := *c
+	shifted.Allowed.Value = make([]AbsTensor, len(c.Allowed.Value))
+	for i, t := range c.Allowed.Value {
+		nt := t
+		nt.Data = make([]Elem, len(t.Data))
+		for k, e := range t.Data {
+			if e.Kind != "int" {
+				return nil
+			}
+			nt.Data[k] = IntElem(e.I + 7)
+		}
+		shifted.Allowed.Value[i] = nt
+	}
+	shifted.Keep = false
+	o := call()
+	return &ModeResult{"helper:buffers-refilled", Verdict(&shifted, o), o.Short()}
 }
 
 func execHelper(c *Case) Observation {
